@@ -394,7 +394,8 @@ Proof. vm_compute. repeat split. Qed.
     2 objects and [KCollectOnce] returns within 2 * 2 + 3 *)
 Definition cb_skip (_ : call) (m : machine) : machine * outcome := (m, ONormal).
 Example ex_oracle_pre :
-  pass_len PassEx.exK PassEx.exP PassEx.exA = 2%nat /  (crun PassEx.exK PassEx.exP cb_skip 7 KCollectOnce PassEx.exA).2 <> OFuel.
+  pass_len PassEx.exK PassEx.exP PassEx.exA = 2%nat /\
+  (crun PassEx.exK PassEx.exP cb_skip 7 KCollectOnce PassEx.exA).2 <> OFuel.
 Proof.
   split; [vm_compute; reflexivity|].
   replace 7%nat with (2 * pass_len PassEx.exK PassEx.exP PassEx.exA + 3)%nat
@@ -412,5 +413,7 @@ Definition cb_evil (_ : call) (m : machine) : machine * outcome :=
   (m <| heap ::= map (fun x => x <| o_hdr ::= set_fin false |>) |>, ONormal).
 Example ex_oracle_evil :
   let X := crun c6K c6P cb_evil 20 KCollectCycles ex_m0 in
-  X.2 = ONormal /\ ex_count KFin 11 X.1 = 10%nat /\ ex_count KTrace 11 X.1 = 10%nat /  pc X.1 = [11%nat] /\ existsb ex_is_bad (log X.1) = false /  (crun c6K c6P cb_evil 10 KCollectCycles ex_m0).2 = OFuel.
+  X.2 = ONormal /\ ex_count KFin 11 X.1 = 10%nat /\ ex_count KTrace 11 X.1 = 10%nat /\
+  pc X.1 = [11%nat] /\ existsb ex_is_bad (log X.1) = false /\
+  (crun c6K c6P cb_evil 10 KCollectCycles ex_m0).2 = OFuel.
 Proof. vm_compute. repeat split. Qed.
